@@ -85,7 +85,9 @@ theorem fireK_s2 {R : Req → LCfg → LCfg} (hR : ∀ r l, l.c.stepping = true 
     have hst : l.c.stepping = true := by
       rcases hs with hs | hs
       · exact hs
-      · simpa [hs] using hg
+      · have : (l.c.stepping && !l.executing) = true := by simpa [hs] using hg
+        simp only [Bool.and_eq_true] at this
+        exact this.1
     split
     · exact Same2.rfl' _
     · exact hR _ _ hst
